@@ -216,6 +216,11 @@ def run_job(unit, job, cpath, outdir, tier, extra_defines=()):
         res.wall_s = time.time() - t0
         return res
     results, msgs, status = parse_cbmc_json(out)
+    if rc not in (0, 10):
+        # cbmc exits 0 (all proved) or 10 (some obligation failed); anything else is an abort (memory limit, internal error): undecided, never a verdict
+        res.reason = 'cbmc aborted (rc=%d; memory limit or internal error): %s' % (rc, ' | '.join(m[:200] for m in (msgs or [])[-2:]))
+        res.wall_s = time.time() - t0
+        return res
     if results is None:
         res.reason = 'cbmc produced no result (rc=%d): %s' % (rc, ' | '.join(m[:300] for m in msgs[-3:]))
         res.wall_s = time.time() - t0
